@@ -10,7 +10,7 @@
 // line counter).
 // Oracle: ref_expand(), written from the statement of the property: explicit stack of (file, position), active-name set, no recursion.
 //
-// Entries: h_scan (bounded, all scripts/presence/main), h_helpers (layer A: contracts of exists_scanner/create_scanner/cleanup_scanner
+// Entries: h_scan / h_scan_all (bounded runs of the real scan(), see sym_input), h_helpers (layer A: contracts of exists_scanner/create_scanner/cleanup_scanner
 // from an ARBITRARY scanner stack - the facts from which "names on lex_stack are pairwise distinct" is inductive for graphs of any size).
 #include "Compiler/include/lexer.hpp"
 #include "Compiler/include/scan.hpp"
@@ -36,6 +36,28 @@ static inline bool nondet_bool() { return (nondet_int() & 1) != 0; }
 #define ASSUME(c) __CPROVER_assume(c)
 #define ASSERT(c, msg) __CPROVER_assert(c, msg)
 
+// Cheaper, equivalent bodies for three functions of the container model (redirected with ir2c --stub, see props/c15.py):
+//  * string == and < : word-wise on the canonical buffer (unused bytes are 0) instead of the byte loop;
+//  * "literal" + string and string + "literal" (only used by scan.cpp to build diagnostic texts): the text is NOT modelled, the result is
+//    flagged truncated, so that any comparison of a diagnostic text is a model-bound failure (inconclusive), never a verdict.
+static inline unsigned be32(const char *b) { return ((unsigned)(unsigned char)b[0] << 24) | ((unsigned)(unsigned char)b[1] << 16) | ((unsigned)(unsigned char)b[2] << 8) | (unsigned)(unsigned char)b[3]; }
+extern "C" {
+bool stub_str_eq(const std::string *a, const std::string *o) {
+  __CPROVER_assert(!a->trunc && !o->trunc, "ministl: comparing truncated string (model bound)");
+  bool e = a->n == o->n;
+  for (int w = 0; w < MINISTL_STR_CAP / 4; w++) e = e & (be32(a->b + 4 * w) == be32(o->b + 4 * w));
+  return e;
+}
+bool stub_str_lt(const std::string *a, const std::string *o) {
+  __CPROVER_assert(!a->trunc && !o->trunc, "ministl: comparing truncated string (model bound)");
+  bool lt = false, dec = false;
+  for (int w = 0; w < MINISTL_STR_CAP / 4; w++) { unsigned x = be32(a->b + 4 * w), y = be32(o->b + 4 * w); bool d = (x != y) & !dec; lt = d ? (x < y) : lt; dec = dec | d; }
+  return lt;
+}
+std::string stub_cat_cs(const char *a, const std::string &b) { std::string r; r.trunc = 1; return r; }
+std::string stub_cat_sc(const std::string &a, const char *b) { std::string r; r.trunc = 1; return r; }
+}
+
 #if !defined(SC_NF) || !defined(SC_NE) || !defined(SC_V)
 #error "SC_NF (files), SC_NE (script entries per file), SC_V (file visits per run) must be defined"
 #endif
@@ -59,44 +81,40 @@ int CEX_main, CEX_present[SC_NF], CEX_len[SC_NF], CEX_kind[SC_NF * SC_NE], CEX_a
 static char name_char(int id) { return id < SC_NF ? (char)('a' + id) : id == SC_NF ? 'y' : 'z'; }
 static std::string name_str(int id) { std::string s; if (id != SC_NF + 2) s.__push(name_char(id)); return s; }
 
-// Layer C: the include layout (which entries are tokens / include / quoted names and what they name, which files exist, the main
-// name) is a constant of the query, supplied by shape_param() (defined in a small C file that props/c15.py generates per layout and hands
-// to CBMC together with the translated harness); the line numbers stay symbolic.  layout == false: everything symbolic.
+// Every query fixes a PART of the input and leaves the rest to the solver: shape_param(i) (defined in a small C file that props/c15.py
+// generates per query and hands to CBMC together with the translated harness) gives the value of input item i, or a negative number for
+// "symbolic".  All items negative = every script, presence bit and the main name symbolic; all items fixed = one concrete include
+// layout (DESIGN.md 2.5, layer C) of which only the line numbers are symbolic.  Line numbers are always symbolic.
 extern "C" int shape_param(int idx);
-static void sym_input(bool layout) {
+static int shp(int q) { int v = shape_param(q); return v < 0 ? nondet_int() : v; }   // negative = left symbolic in this query
+static void sym_input() {
   int q = 0;
   for (int f = 0; f < SC_NF; f++) {
-    if (layout) { S_present[f] = shape_param(q) != 0; S_len[f] = shape_param(q + 1); }
-    else { S_present[f] = nondet_bool(); S_len[f] = nondet_int(); }
+    S_present[f] = (shp(q) & 1) != 0; S_len[f] = shp(q + 1);
     q += 2;
     CEX_present[f] = S_present[f];
     ASSUME(S_len[f] >= 0 && S_len[f] <= SC_NE); CEX_len[f] = S_len[f];
     for (int p = 0; p < SC_NE; p++) {
-      int k, a, o;
-      if (layout) { k = shape_param(q); a = shape_param(q + 1); o = shape_param(q + 2); } else { k = nondet_int(); a = nondet_int(); o = nondet_int(); }
+      int k = shp(q), a = shp(q + 1), o = shp(q + 2);
       q += 3;
       ASSUME(k >= K_ORD && k <= K_FN);
       ASSUME(a >= 0 && a < SC_NAMES);
       int l = nondet_int(); ASSUME(l >= 1 && l <= 1000000); if (p > 0) ASSUME(l >= S_line[f][p - 1]);
       // kind of an ordinary token: any token kind the scanner can deliver except INCLUDE/FNAME (T_EOF is never delivered with a
       // non-zero return; UNKNOWN is never produced by lexer.l: its catch-all rule yields NV_ID)
-      // (a constant of the layout in layer C: scan() branches on the kind, a symbolic kind would make the control flow symbolic)
       ASSUME(o >= (int)Token::ID && o < (int)Token::UNKNOWN && o != (int)Token::INCLUDE && o != (int)Token::FNAME);
       S_kind[f][p] = k; S_arg[f][p] = a; S_line[f][p] = l; S_okind[f][p] = o;
       CEX_kind[f * SC_NE + p] = k; CEX_arg[f * SC_NE + p] = a; CEX_line[f * SC_NE + p] = l; CEX_okind[f * SC_NE + p] = o;
     }
   }
-  if (layout) S_main = shape_param(q); else S_main = nondet_int();
+  S_main = shp(q);
   ASSUME(S_main >= 0 && S_main <= SC_NF + 1); CEX_main = S_main;
 }
 
-// entry (f,p) of the scripts, selected with constant indices only
+// (four separate int tables: a by-value struct would be packed into 64-bit words by SROA, which ties the constant fields to the symbolic line)
 struct Ent { int kind, arg, line, okind; };
-static Ent entry(int f, int p) {
-  Ent e = {K_ORD, 0, 1, (int)Token::ID};
-  for (int i = 0; i < SC_NF; i++) for (int j = 0; j < SC_NE; j++) if (f == i && p == j) { e.kind = S_kind[i][j]; e.arg = S_arg[i][j]; e.line = S_line[i][j]; e.okind = S_okind[i][j]; }
-  return e;
-}
+static int sel(const int (*t)[SC_NE], int f, int p, int dflt) { int r = dflt; for (int i = 0; i < SC_NF; i++) for (int j = 0; j < SC_NE; j++) if (f == i && p == j) r = t[i][j]; return r; }
+static void entry(Ent &e, int f, int p) { e.kind = sel(S_kind, f, p, K_ORD); e.arg = sel(S_arg, f, p, 0); e.line = sel(S_line, f, p, 1); e.okind = sel(S_okind, f, p, (int)Token::ID); }
 static int len_of(int f) { int r = 0; for (int i = 0; i < SC_NF; i++) if (f == i) r = S_len[i]; return r; }
 static bool present_id(int id) { bool r = false; for (int i = 0; i < SC_NF; i++) if (id == i) r = S_present[i]; return r; }
 
@@ -165,7 +183,7 @@ int yylex(Theo::Token *ret, yyscan_t yyscanner) {
   if (p >= len_of(f)) return 0;   // end of this file (and again on every later call)
   Theo::ScannerInfo *extra = LX_extra[0]; for (int k = 1; k < SC_NS; k++) if (h == k) extra = LX_extra[k];
   ASSERT(extra != 0, "C02: yylex delivers a token only after yyset_extra (TOK reads yyextra->filename)");
-  Ent e = entry(f, p);
+  Ent e; entry(e, f, p);
   // line = script line counted from the registered first line (script lines are written for first line 1)
   int line = (int)((unsigned)e.line - 1u + (unsigned)geti(LX_lineno, h));
   *ret = Theo::Token(tok_kind(e), tok_text(e, f, p), extra->filename, line);
@@ -222,13 +240,13 @@ static void ref_expand(Ref &R) {
     int adv = 0; bool pop = false; int push = -1;
     if (p >= n) pop = true;                                   // end of the file: back to the including file
     else {
-      Ent e = entry(f, p);
+      Ent e; entry(e, f, p);
       if (e.kind != K_INC) {                                  // a token of this file (a quoted name that follows no include is one, too)
         if (R.ntok < SC_TOK) { for (int i = 0; i < SC_TOK; i++) if (i == R.ntok) { R.tf[i] = f; R.tp[i] = p; } R.ntok++; } else R.overflow = true;
         if (e.kind == K_FN) R.stray++;
         adv = 1;
       } else {
-        Ent nx = entry(f, p + 1);
+        Ent nx; entry(nx, f, p + 1);
         bool has_next = p + 1 < n;
         if (!has_next || nx.kind != K_FN) {                   // include not followed by a quoted name: reported; the token read in its place is dropped
           ref_err(R, (int)ParseError::EXPECTED_FILENAME, -1, f, e.line, has_next ? nx.line : e.line); R.nexp++;
@@ -257,11 +275,28 @@ static void ref_expand(Ref &R) {
 // ------------------------------------------------------------------------------------------------ h_scan
 static bool str_is(const std::string &s, const char *lit) { return s == std::string(lit); }
 
-static void scan_obligations(bool layout);
-extern "C" void h_scan() { scan_obligations(false); __CPROVER_assert(0, "WITNESS: end of h_scan reachable"); }
-extern "C" void h_scan_layout() { scan_obligations(true); __CPROVER_assert(0, "WITNESS: end of h_scan_layout reachable"); }
-static void scan_obligations(bool layout) {
-  sym_input(layout);
+static Ref G_R;   // the reference expansion of the last run (for the non-vacuity obligations of h_scan_all)
+static void scan_obligations();
+// (the read-out of the input is made part of the witness assertion, so that formula slicing keeps it in every counterexample trace)
+static int cex_keep() {
+  int r = (CEX_main & 1);
+  for (int f = 0; f < SC_NF; f++) r += (CEX_present[f] & 1) + (CEX_len[f] & 1);
+  for (int i = 0; i < SC_NF * SC_NE; i++) r += (CEX_kind[i] & 1) + (CEX_arg[i] & 1) + (CEX_line[i] & 1) + (CEX_okind[i] & 1);
+  return r;
+}
+// h_scan: the query fixes part of the input (shape_param), the solver decides over the rest
+extern "C" void h_scan() { scan_obligations(); __CPROVER_assert(cex_keep() < 0, "WITNESS: end of h_scan reachable"); }
+// h_scan_all: for queries that leave everything symbolic - additionally the interesting cases must be among the inputs (the solver must find them)
+extern "C" void h_scan_all() {
+  scan_obligations();
+  const Ref &R = G_R;
+  ASSERT(!(R.nrec >= 1 && R.maxdepth >= 2), "C15(EXISTS): a recursive include through another file is among the inputs");
+  ASSERT(!(R.nmain == 1 && R.ntok == 0), "C15(EXISTS): an absent main file is among the inputs");
+  ASSERT(!((R.nfnf >= 1 || R.nexp >= 1) && R.visits >= 2), "C15(EXISTS): a missing target or a malformed include inside an included file is among the inputs");
+  __CPROVER_assert(cex_keep() < 0, "WITNESS: end of h_scan_all reachable");
+}
+static void scan_obligations() {
+  sym_input();
   Ref R; ref_expand(R);
   // input bound: the expansion opens at most SC_V files in total (files may be opened repeatedly) - this, not the graph, bounds the run
   ASSUME(R.done && !R.overflow && R.visits <= SC_V);
@@ -296,7 +331,7 @@ static void scan_obligations(bool layout) {
   // ---- C15/C14: the stream is the main file with every include replaced in place by the tokens of the named file, labelled with file and line
   bool same = true; bool lab = true;
   for (int i = 0; i < SC_TOK; i++) if (i < R.ntok && i < nt) {
-    Ent e = entry(R.tf[i], R.tp[i]);
+    Ent e; entry(e, R.tf[i], R.tp[i]);
     const Token &t = r.toks.u.d[i];
     same = same && t.t == tok_kind(e) && t.text == tok_text(e, R.tf[i], R.tp[i]);
     lab = lab && t.file == name_str(R.tf[i]) && t.line == e.line;
@@ -345,12 +380,7 @@ static void scan_obligations(bool layout) {
   ASSERT(loc, "C15: every include error is located in the including file at the directive");
   ASSERT(reqs && nq == R.nreq, "C15: the file requests (FILE_NOT_FOUND and MAIN_FILE_NOT_FOUND reports) are exactly the absent include targets and the absent main file");
 
-  // ---- non-vacuity of the interesting cases (the solver must find them)
-  if (layout) return;
-  ASSERT(!(R.nrec >= 1 && R.maxdepth >= 3), "C15(EXISTS): a recursive include through at least two other files is among the inputs");
-  ASSERT(!(R.revisit == 1 && R.nrec == 0 && R.ntok >= 2), "C15(EXISTS): a file included twice without recursion is among the inputs");
-  ASSERT(!(R.nmain == 1 && R.ntok == 0), "C15(EXISTS): an absent main file is among the inputs");
-  ASSERT(!(R.nfnf >= 1 && R.nexp >= 1 && R.visits >= 2), "C15(EXISTS): missing targets and malformed includes inside an included file are among the inputs");
+  G_R = R;
 }
 
 // ------------------------------------------------------------------------------------------------ h_helpers (layer A)
